@@ -47,12 +47,13 @@ func ParseGlyf(src []byte, locaOffsets []uint32) (Glyf, error) {
 		if start == end {
 			continue
 		}
+		// an invalid glyph is an empty glyph: the others are kept (as Harfbuzz and FreeType do)
 		if start > end || len(src) < int(end) {
-			return nil, fmt.Errorf("invalid loca offsets for glyph %d: [%d, %d] (glyf length %d)", i, start, end, len(src))
+			continue
 		}
 		out[i], _, err = ParseGlyph(src[start:end])
 		if err != nil {
-			return nil, err
+			out[i] = Glyph{}
 		}
 	}
 	return out, nil
